@@ -142,6 +142,7 @@ class SimNet:
         self.failing: dict = {}  # addrkey -> 'refused' | 'timeout' | 'reset'  (persistent, C13)
         self.sent: list = []  # (call, sockid, bytes) everything handed to sendall and delivered
         self.rx: list = []  # (call, sockid, bytes) everything returned by recv
+        self.hard: list = []  # (call, addrkey, label): deviations that make an exchange fail
         self.owner_classes = ()
         self.nconn = 0
 
@@ -333,6 +334,8 @@ class SimSocket:
         if c.startswith("int:"):
             net.log("connect_fail", self, key, c, self.timeout)
             self._maybe_interrupt(c)
+        if c != "ok":
+            net.hard.append((net.call, key, c))
         if c == "refused":
             net.log("connect_fail", self, key, "refused", self.timeout)
             raise ConnectionRefusedError(errno.ECONNREFUSED, "Connection refused")
@@ -365,6 +368,8 @@ class SimSocket:
             conn.reset = True
             raise ConnectionResetError(errno.ECONNRESET, "Connection reset by peer")
         c = net.choose("sendall", net.menu.get("sendall", ()))
+        if c != "ok":
+            net.hard.append((net.call, self.addr, c))
         if c.startswith("int:"):
             net.log("sendall_fail", self, c, self.timeout)
             self._maybe_interrupt(c)
@@ -404,6 +409,7 @@ class SimSocket:
                 c = self._reply_choice(rep)
             if c != "ok":
                 conn.deviated = True
+                net.hard.append((net.call, self.addr, c))
                 outcome = ("deviated", c, outcome)
                 if c == "error":
                     rep = b"ERROR\r\n"
@@ -492,6 +498,8 @@ class SimSocket:
                     else:
                         app.append(lab)
                 c = net.choose("recv", app)
+        if c not in ("ok", "short1", "cut_cr", "eintr"):
+            net.hard.append((net.call, self.addr, c))
         if c == "ok":
             data, tags = conn.take(limit)
         elif c == "short1":
